@@ -25,6 +25,23 @@ deriving DecidableEq, Repr
 inductive Magic | none | v2 | other
 deriving DecidableEq, Repr
 
+/-- CIF whitespace: what may follow the ten characters of a version comment (any of the line-terminator conventions LF, CR,
+    CR LF — i.e. the character LF or CR —, a blank or a tab); the end of the input may follow as well -/
+def isCifWhitespace (c : Nat) : Bool := c == 32 || c == 9 || c == 10 || c == 13
+
+/-- the ten characters of a version comment are a whole comment token: followed by CIF whitespace (`some c`) or by nothing -/
+def commentEndsHere : Option Nat → Bool
+  | none => true
+  | some c => isCifWhitespace c
+
+/-- what follows the magic code in the documents of the property's table: end of input, LF, CR, CR LF, blank, tab -/
+inductive Terminator | eof | lf | cr | crlf | space | tab
+deriving DecidableEq, Repr
+
+/-- the character right after the magic code for each terminator -/
+def Terminator.next : Terminator → Option Nat
+  | .eof => none | .lf => some 10 | .cr => some 13 | .crlf => some 13 | .space => some 32 | .tab => some 9
+
 /-- the encoding a parse uses -/
 inductive Encoding | signature (e : Enc) | utf8 | named | system
 deriving DecidableEq, Repr
